@@ -5160,6 +5160,10 @@ class DfaCompileCtx:
             if next_target.error_handling and transition.target in self.dfa.accepting_states:
                 continue
 
+            # end() cannot be resumed: a yield stays behind the end-of-input transition
+            if DFTransition.End in effective and any(action.may_return_early() for action in next_target.actions):
+                continue
+
             # Are there actions? If so, does this violate the threshold
             if len(next_target.actions) > 0:
                 max_count = ProgramData.option(ProgramOption.MAX_SHORTCIRCUIT_FALLTHROUGH) - ProgramData.option(ProgramOption.MAX_SHORTCIRCUIT_ACTION_PENALTY)*(len(next_target.actions)-1)
@@ -5195,6 +5199,10 @@ class DfaCompileCtx:
             to_replace = transition.target.transitions[0]
 
             if not to_replace.is_fallthrough:
+                continue
+
+            # (as above: a yield stays behind an end-of-input transition)
+            if DFTransition.End in transition.on_values and any(action.may_return_early() for action in to_replace.actions):
                 continue
 
             if len(to_replace.actions) > 0:
